@@ -674,8 +674,8 @@ class Module:
                     and st.value.func.id in ("arg_to_uint", "arg_to_int"))
 
         def stores(st):
-            if isinstance(st, ast.Return):
-                return True
+            if isinstance(st, (ast.Return, ast.For, ast.While)):
+                return True            # the validation prefix ends where the work begins
             if isinstance(st, (ast.Assign, ast.AugAssign, ast.AnnAssign)):
                 tg = st.targets if isinstance(st, ast.Assign) else [st.target]
                 return any(isinstance(t, (ast.Attribute, ast.Subscript)) for t in tg)
@@ -712,6 +712,9 @@ class Module:
                                     orelse=[], lineno=st.lineno))
                 continue
             stmts.append(st)
+        while stmts and isinstance(stmts[-1], ast.Assign) and not is_conv(stmts[-1]) and isinstance(stmts[-1].targets[0], ast.Name) \
+                and stmts[-1].targets[0].id not in ret:
+            stmts.pop()                # initialisations of the work that follows (`failures = []`)
         stmts.append(ast.Return(value=ast.Tuple(elts=[ast.Name(id=r, ctx=ast.Load()) for r in ret], ctx=ast.Load()) if len(ret) > 1
                                 else ast.Name(id=ret[0], ctx=ast.Load()), lineno=fn.end_lineno))
         ps = list(params) + list(extra_params or []) + ([("dtype_ok", "bool")] if uses_dtype_ok else [])
@@ -924,6 +927,13 @@ class Module:
                     last = b.pop()
                     return wrap(b, f"Except.bind {last[1]} (fun {sv} =>\n{inner})")
                 return wrap(b, f"let {sv} := {term}\n{inner}")
+            if isinstance(st, ast.If) and isinstance(st.test, ast.Compare) and len(st.test.ops) == 1 and isinstance(st.test.left, ast.Constant) \
+                    and isinstance(st.test.comparators[0], ast.Name) and st.test.comparators[0].id == ivar:
+                # `0 < i` is `i > 0`
+                flip = {ast.Lt: ast.Gt, ast.Gt: ast.Lt, ast.LtE: ast.GtE, ast.GtE: ast.LtE, ast.Eq: ast.Eq, ast.NotEq: ast.NotEq}
+                if type(st.test.ops[0]) in flip:
+                    st = ast.If(test=ast.Compare(left=st.test.comparators[0], ops=[flip[type(st.test.ops[0])]()], comparators=[st.test.left]),
+                                body=st.body, orelse=st.orelse)
             if isinstance(st, ast.If) and isinstance(st.test, ast.Compare) and len(st.test.ops) == 1 and isinstance(st.test.left, ast.Name) \
                     and st.test.left.id == ivar and isinstance(st.test.comparators[0], ast.Constant) and isinstance(st.test.comparators[0].value, int) \
                     and type(st.test.ops[0]) in (ast.NotEq, ast.Eq, ast.Gt, ast.Lt, ast.GtE, ast.LtE):
